@@ -238,6 +238,20 @@ class _CbcDecryptor:
         return b""
 
 
+class _CbcEncryptor:
+    def __init__(self, alg, key, iv):
+        self.alg, self.key, self.prev = alg, key, iv
+
+    def update(self, data):
+        ct = cbc_enc(self.alg, self.key, self.prev, _buf("data", data))
+        if ct:
+            self.prev = ct[-BLK[self.alg]:]
+        return ct
+
+    def finalize(self):
+        return b""
+
+
 class _Rc4Context:
     def __init__(self, key):
         self.key, self.pos = key, 0
@@ -271,6 +285,12 @@ class Cipher:
                 raise UnsupportedAlgorithm("cipher in None mode is not supported")
             return _Rc4Context(self.algorithm.key)
         return _CbcDecryptor(self.algorithm.tag, self.algorithm.key, self.mode.initialization_vector)
+
+    def encryptor(self):
+        """sender side (used only by the toy-world generators of harness/pipeline_corr.py)"""
+        if self.mode is None:
+            return _Rc4Context(self.algorithm.key)                # the RC4 pad is an involution
+        return _CbcEncryptor(self.algorithm.tag, self.algorithm.key, self.mode.initialization_vector)
 
 
 class _Aead:
